@@ -316,10 +316,28 @@ func overlapScenario(first string, a, b string) *fw.Scenario {
 			memfs.RecordSites = false
 			s := sess.Connect(fs, sess.NewServer(fs), "c0")
 			setup(s, "read")
-			f := build("read", first, 40, 0)
-			r0 := s.Do(f.msg)
-			if e := f.check(fs, nil, r0); e != "" {
-				problems = append(problems, "first read: "+e)
+			if first == "panic" {
+				// the first read's backend call panics: the request is answered
+				// EFAULT and its objects go back to the pools from the
+				// recovery path
+				n := 0
+				fs.Hook = func(c *memfs.Call) *memfs.Action {
+					if c.Method == "ReadAt" {
+						if n++; n == 1 {
+							return &memfs.Action{Panic: "injected panic in ReadAt"}
+						}
+					}
+					return nil
+				}
+				if r0 := s.Do(build("read", "long", 40, 0).msg); r0.Name() != "Rlerror" {
+					problems = append(problems, "first read: answered "+r0.Name()+" although the backend panicked")
+				}
+			} else {
+				f := build("read", first, 40, 0)
+				r0 := s.Do(f.msg)
+				if e := f.check(fs, nil, r0); e != "" {
+					problems = append(problems, "first read: "+e)
+				}
 			}
 			ba, bb := build("read", a, 41, 1), build("read", b, 42, 2)
 			vsched.BeginExplore()
@@ -374,7 +392,7 @@ func generalize(s string) string {
 }
 
 func run(ctx *fw.Ctx, rep *fw.Report) {
-	rep.Rule = "for each family (Twalk names, Twalkgetattr names, Twrite payload, Tread data, Treaddir entries, Treadlink string, Tsymlink strings): ALL sequences of length 1..3 of same-type messages with each variable-size part in {long, short, empty} x every assignment of the messages to 2 connections of one server process (shared message cache and buffer pools); messages run in lock-step on the real server under the controlled scheduler with sync.Pool in recycling mode: which object a Pool.Get returns (most recent / oldest / fresh) is an explored data choice (<= 2 departures from 'most recent'), the message cache is the real channel; thread schedule: the default one (lock-step leaves no request-level concurrency); plus 9 scenarios 'one read (long/short/at end of file), then two reads in flight together' with all thread interleavings explored (DPOR) and pools recycling most-recent-first; oracle: direct expectation per message written from the request (names seen by the backend, payload bytes and offset, reply data == bytes the backend produced, entries, strings)"
+	rep.Rule = "for each family (Twalk names, Twalkgetattr names, Twrite payload, Tread data, Treaddir entries, Treadlink string, Tsymlink strings): ALL sequences of length 1..3 of same-type messages with each variable-size part in {long, short, empty} x every assignment of the messages to 2 connections of one server process (shared message cache and buffer pools); messages run in lock-step on the real server under the controlled scheduler with sync.Pool in recycling mode: which object a Pool.Get returns (most recent / oldest / fresh) is an explored data choice (<= 2 departures from 'most recent'), the message cache is the real channel; thread schedule: the default one (lock-step leaves no request-level concurrency); plus 12 scenarios 'one read (long/short/at end of file/answered EFAULT after a backend panic), then two reads in flight together' with all thread interleavings explored (DPOR) and pools recycling most-recent-first; oracle: direct expectation per message written from the request (names seen by the backend, payload bytes and offset, reply data == bytes the backend produced, entries, strings)"
 	rep.Assumptions = append(rep.Assumptions, "Pool.Get alternatives bounded to 2 deviations from most-recently-put", "lock-step (one message in flight)", "client-side decoding into caller-provided structs is covered by C01/C17")
 	families := []string{"walk", "walkgetattr", "write", "read", "readdir", "readlink", "symlink"}
 	var scs []*fw.Scenario
@@ -407,7 +425,7 @@ func run(ctx *fw.Ctx, rep *fw.Report) {
 	rep.Info["scenarios_total"] = len(scs)
 	// overlapping reads (thread interleavings explored, default pool behaviour)
 	n0 := len(scs)
-	for _, first := range sizes {
+	for _, first := range append(append([]string{}, sizes...), "panic") {
 		for _, pair := range [][2]string{{"long", "short"}, {"long", "long"}, {"short", "empty"}} {
 			sc := overlapScenario(first, pair[0], pair[1])
 			n0++
